@@ -16,7 +16,7 @@ pub const PROP_NAMES: &[&str] = &[
 pub const ENUM_VALUES: &[&str] = &["available", "pending", "sold", "A", "b", "in-progress", "2xx", "3D", "self", "type", "+1", "-1", "a.b", "x y", "UPPER_CASE", "Self", "done"];
 pub const DESCS: &[&str] = &[
     "A simple description.", "  padded  ", "line one\nline two", "with \"quotes\" and \\backslash\\", "ends with */ comment", "{braces} and {}", "\n\nblank lines around\n\n",
-    "crlf\r\nline", "caf\u{e9} \u{1F600} unicode", "", "See <https://example.com>.", "tab\there", "`code` and *emphasis*",
+    "crlf\r\nline", "caf\u{e9} \u{1F600} unicode", "next\u{85}line separator", "", "See <https://example.com>.", "tab\there", "`code` and *emphasis*",
     "\"active\" while listed, otherwise \"archived\"", "'single' quoted 'ends'", "/// looks like a doc comment", "#[attr] and #![inner]", "trailing backslash \\",
     "/* block */ comment", "r#\"raw\"#", "\u{a0}non-breaking space around\u{a0}", "  \t mixed whitespace \n ",
 ];
@@ -132,6 +132,7 @@ impl<'a> SpecGen<'a> {
                 json!({"type": "object", "additionalProperties": v})
             }
             12 => { self.feat("allof1"); let t = if self.rng.chance(1, 3) { self.any_ref() } else { self.object_ref_or_solid() }; match t {
+                Some(_) if (self.names.len() + depth) % 5 == 4 => { self.feat("allof1_inline_primitive"); json!({"allOf": [{"type": "string", "format": "date"}]}) }
                 Some(x) => if (self.names.len() + depth) % 3 == 1 && self.is_object_ref(&x) { self.feat("allof_ref_plus_inline_properties"); json!({"allOf": [x, {"type": "object", "properties": {"zz_extra_note": {"type": "string"}}, "required": ["zz_extra_note"]}]}) } else { json!({"allOf": [x]}) },
                 None => json!({"type": "string"}) } }
             13 => { self.feat("oneof"); json!({"oneOf": [{"type": "string"}, {"type": "integer"}]}) }
@@ -366,7 +367,15 @@ impl<'a> SpecGen<'a> {
         let success = ["200", "201", "202", "204", "302"][self.rng.below(5)];
         let mut mk = |g: &mut SpecGen, with_body: bool| -> Value {
             let mut resp = json!({"description": "response"});
-            if with_body { if let Some(s) = g.response_schema() { resp["content"] = json!({"application/json": {"schema": s}}); } }
+            if with_body { if let Some(s) = g.response_schema() {
+                if g.names.len() % 4 == 3 {
+                    let mut content = Map::new();
+                    content.insert("application/json-patch+json".into(), json!({"schema": {"type": "array", "items": {"type": "integer"}}}));
+                    content.insert("application/json".into(), json!({"schema": s}));
+                    resp["content"] = Value::Object(content);
+                    g.feat("response_with_second_media_type");
+                } else { resp["content"] = json!({"application/json": {"schema": s}}); }
+            } }
             resp
         };
         let has_body = success != "204";
@@ -423,7 +432,7 @@ impl<'a> SpecGen<'a> {
             ("/pets", &[]), ("/pets/{petId}", &["petId"]), ("/owners/{ownerId}/pets/{petId}", &["ownerId", "petId"]), ("/orders", &[]),
             ("/orders/{order_id}/items", &["order_id"]), ("/search", &[]), ("/things/{thingId}/sub/{subId}/leaf", &["thingId", "subId"]), ("/status", &[]),
             // a placeholder that repeats its collection's name, next to the collection itself; templates ending in a slash; the root
-            ("/user", &[]), ("/user/{user}", &["user"]), ("/gadgets/", &[]), ("/gadgets/{gadget_id}/parts/", &["gadget_id"]), ("/", &[]),
+            ("/user", &[]), ("/user/{user}", &["user"]), ("/gadgets/", &[]), ("/gadgets/{gadget_id}/parts/", &["gadget_id"]), ("/", &[]), ("/root", &[]),
             // placeholder names with the other characters of the name alphabet, a keyword, a leading digit
             ("/orgs/{org-id}/members", &["org-id"]), ("/files/{file.id}", &["file.id"]), ("/types/{type}", &["type"]), ("/petId/{petId}", &["petId"]), ("/codes/{2fa}/verify", &["2fa"]),
         ];
